@@ -10,6 +10,8 @@ CONSTANTS
   BatchCount = 1
   Retry = 0
   HasDQ = FALSE
+  KidsPer = 0
+  KidBase = 0
   MaxFails = 0
   M_SeqCommit = TRUE
   M_NoNotifyOnDiscard = TRUE
@@ -17,6 +19,7 @@ CONSTANTS
   M_RetryHolds = TRUE
   M_DQEmptiesBatch = TRUE
   M_CommitMax = TRUE
+  M_TimerFlushesAny = TRUE
 VIEW view
 INVARIANTS TypeOK C01res C02res C05 C08 C09 OneOwner ChargedOnce NoCodePanic NoStuck
 CHECK_DEADLOCK FALSE
